@@ -290,16 +290,9 @@ def op_call_batch(task):
     import tensora.compile._porcelain as porc
     from tensora import Tensor
 
-    orig = porc.cachable_tensor_method
-    if not getattr(orig, "_vf_wrapped", False):
-        def wrapped(problem, backend):
-            tm = orig(problem, backend)
-            if not isinstance(tm._evaluate, _EntryRecorder):
-                tm._evaluate = _EntryRecorder(tm._evaluate)
-            return tm
+    from .common import hook_kernel_entry
 
-        wrapped._vf_wrapped = True
-        porc.cachable_tensor_method = wrapped
+    hook_kernel_entry(lambda tm, inner: _EntryRecorder(inner))
 
     def fmt(a):
         return "".join(m + str(o) for m, o in zip(a["modes"], a["ordering"]))
@@ -550,18 +543,21 @@ def _install_conc():
     def init(self, problem, backend=tmod.BackendCompiler.llvm):
         C.point("compile")
         orig_init(self, problem, backend)
-        inner = self._evaluate
-        me = self
+        C.tl.compiled = True
+        C.point("jit", kid=id(self))
 
+    def entry(me, inner):
         def wrapped(*a):
             C.point("enter", kid=id(me), sid=id(a[0]))
             r = inner(*a)
             C.point("exit")
             return r
 
-        self._evaluate = wrapped
-        C.tl.compiled = True
-        C.point("jit", kid=id(self))
+        return wrapped
+
+    from .common import hook_kernel_entry
+
+    hook_kernel_entry(entry)
 
     tmod.TensorMethod.__init__ = init
 
